@@ -4,6 +4,7 @@ from /repo's working tree, in-process, unmodified) and renders every answer in
 exactly the text format that the Lean driver (lean/Main.lean) prints, using the
 public accessors only.
 """
+import weakref
 import os
 import sys
 import pickle
@@ -111,21 +112,37 @@ class TableFilter:
 SARGS = {
     0: ((), {}), 1: ((1,), {}), 2: ((1.0,), {}), 3: ((True,), {}), 4: ((-1,), {}), 5: ((-2,), {}),
     6: ((), {"x": 1, "y": 2}), 7: ((), dict([("y", 2), ("x", 1)])), 8: ((-1,), {"x": 1}),
+    9: (("boom",), {}),        # `__init__` raises ValueError for this one
 }
 
 
-def make_singleton_classes(log):
-    """fresh singleton classes for one history; `log` receives (instance, class index, args index)"""
+def make_singleton_classes(log, tlog):
+    """fresh singleton classes for one history; `log` receives (instance, args, kwargs) of every
+    completed `__init__` of a semi-singleton.  True singletons are NOT kept alive by the harness
+    (a caller that drops the object it got must still get the same one back): their `__init__`
+    numbers the object on its first run and `tlog` receives (number, class name, args, kwargs)."""
     from edgegraph.structure import singleton
 
     def init(self, *args, **kwargs):
+        if args and args[0] == "boom":
+            raise ValueError("boom")
         log.append((self, args, kwargs))
 
+    counter = [0]
+
+    def tinit(self, *args, **kwargs):
+        if args and args[0] == "boom":
+            raise ValueError("boom")
+        if not hasattr(self, "_eg_n"):
+            self._eg_n = counter[0]
+            counter[0] += 1
+        tlog.append((self._eg_n, type(self).__name__, args, kwargs))
+
     ts = []
-    A = singleton.TrueSingleton("TA", (), {"__init__": init})
+    A = singleton.TrueSingleton("TA", (), {"__init__": tinit})
     B = singleton.TrueSingleton("TB", (A,), {})
     # instances of TC (and of the semi-singleton classes SC, SF) are FALSY objects
-    C = singleton.TrueSingleton("TC", (), {"__init__": init, "__len__": lambda self: 0})
+    C = singleton.TrueSingleton("TC", (), {"__init__": tinit, "__len__": lambda self: 0})
     ts = [A, B, C]
     M0 = singleton.semi_singleton_metaclass()
     M1 = singleton.semi_singleton_metaclass()
@@ -186,9 +203,12 @@ class Real:
         from edgegraph.structure import singleton
         singleton.clear_true_singleton()
         self.sg_log = []
-        self.TS, self.SS = make_singleton_classes(self.sg_log)
-        self.T, self.S = [], []           # instances by creation order
+        self.ts_log = []
+        self.TS, self.SS = make_singleton_classes(self.sg_log, self.ts_log)
+        self.Tw, self.S = {}, []          # true singletons: number -> weak reference; semi-singletons by creation order
+        self.last_ts = None
         self.kept = []                    # containers exchanged with the library (C12)
+        self._shared_ulists = {}
         return "ok"
 
     def vname(self, v):
@@ -276,6 +296,12 @@ class Real:
             opts[pool.X] = {"v1side": "o", "v2side": "o"}
         elif o == 4:
             opts[pool.SV] = vdef("class", "T{a0}")
+        elif o == 5:
+            # only the SECOND base of MV(SV, MX) is configured
+            opts[pool.MX] = vdef("entity", "T{a0}")
+        elif o == 6:
+            opts[pool.SV] = vdef("class")
+            opts[pool.MX] = vdef("entity", "T{a0}")
         return opts
 
     def parse_puml(self, text):
@@ -421,6 +447,15 @@ class Real:
         return out
 
     # -------------------------------------------------------------- rendering
+    @staticmethod
+    def rf_attr(x):
+        """render function that reads the vertex (value class of attribute a0)"""
+        if x is None:
+            return "none"
+        if not hasattr(x, "a0"):
+            return "a-"
+        return "a%d" % Real.valclass(x.a0)
+
     def sv(self, v):
         return "-" if v is None else "V%d" % self.vname(v)
 
@@ -530,6 +565,10 @@ class Real:
             # `universes=` is any iterable: a one-shot generator, a list or a tuple in turn
             # (a list in keep-mode, where the caller goes on to edit it)
             kind = 1 if self.keep_mode else len(self.V) % 3
+            if kind == 1 and not self.keep_mode:
+                # the caller passes the SAME list object to several constructor calls
+                key = tuple(id(u_) for u_ in us)
+                us = self._shared_ulists.setdefault(key, us)
             uarg = (u_ for u_ in us) if kind == 0 else us if kind == 1 else tuple(us)
             v = cls(links=ls, universes=uarg, attributes=attrs,
                     uid=(int(uid) if uid else None))
@@ -541,7 +580,8 @@ class Real:
             laws = self.pw(wtok) if wtok else None
             attrs = self.pattrs(self.opt(opts, "a"), len(self.V))
             self.keep(ms, attrs)
-            u = Universe(vertices=ms, laws=laws, attributes=attrs)
+            uid = self.opt(opts, "x")
+            u = Universe(vertices=ms, laws=laws, attributes=attrs, uid=(int(uid) if uid else None))
             n = self.reg_v(u)
             if u.laws is not None:
                 self.reg_w(u.laws)
@@ -798,6 +838,8 @@ class Real:
             code = lambda x: 0 if x is None else self.vname(x) + 1  # noqa: E731
             if toks[2] == "repr":
                 rf = None
+            elif toks[2] == "attr":
+                rf = self.rf_attr       # ONE long-lived callable that reads the vertex's attribute a0
             elif toks[2] == "dup":
                 rf = lambda x: "none" if x is None else "w%d" % (self.vname(x) % 2)  # noqa: E731  (labels shared by several vertices)
             else:
@@ -836,9 +878,20 @@ class Real:
         if op in ("tsnew", "ssnew"):
             classes = self.TS if op == "tsnew" else self.SS
             args, kwargs = SARGS[int(toks[2][1:])]
+            self.last_ts = None
             obj = classes[int(toks[1][1:])](*args, **kwargs)
             if op == "tsnew":
-                return "ok " + self.inst_name(self.T, obj, "T")
+                # the object is named by the number its first `__init__` gave it and is NOT kept
+                n = getattr(obj, "_eg_n", None)
+                name = "T?" if n is None else "T%d" % n
+                if n is not None:
+                    w = self.Tw.get(n)
+                    if w is not None and w() is not None and w() is not obj:
+                        name += "'"               # a different object carrying the same number
+                    self.Tw[n] = weakref.ref(obj)
+                self.last_ts = (n, self.TS.index(type(obj)) if type(obj) in self.TS else -1)
+                del obj
+                return "ok " + name
             return "ok " + self.inst_name(self.S, obj, "S")
         if op == "tsclear":
             from edgegraph.structure import singleton
@@ -847,8 +900,10 @@ class Real:
         if op == "tsobs":
             from edgegraph.structure import singleton
             d = singleton.TrueSingleton._TrueSingleton__singleton_instances
-            cur = ["%d:%s" % (self.TS.index(c), self.inst_name(self.T, o, "T")[1:]) for c, o in d.items() if c in self.TS]
-            return "ts inst=[%s] inits=[%s]" % (",".join(cur), ",".join(self.inits_of(self.T, self.TS)))
+            cur = ["%d:%s" % (self.TS.index(c), getattr(o, "_eg_n", "?")) for c, o in list(d.items()) if c in self.TS]
+            names = [c.__name__ for c in self.TS]
+            inits = ["%d:%d:%d" % (n, names.index(cn), self.sargs_index(a, kw)) for (n, cn, a, kw) in self.ts_log]
+            return "ts inst=[%s] inits=[%s]" % (",".join(cur), ",".join(inits))
         if op in ("ssadd", "ssdrop", "sscheck", "ssall", "ssclear"):
             from edgegraph.structure import singleton
             if op == "ssadd":
@@ -887,7 +942,7 @@ class Real:
         import json
         if m == 2:
             return str(k)
-        for i, cls in enumerate([0, 1, 1, 1, 2, 3, 4, 4, 5]):
+        for i, cls in enumerate([0, 1, 1, 1, 2, 3, 4, 4, 5, 6]):
             a, kw = SARGS[i]
             if k == (a, json.dumps(kw, sort_keys=True)):
                 return str(cls)
